@@ -476,11 +476,14 @@ impl<KT: DbMapKeyType> VarFileKeyCache<KT> {
         // add new.
         {
             let free_piece_offset = self.0.pop_free_piece_list(new_piece_size)?;
-            let new_piece_offset = if !free_piece_offset.is_zero() {
+            let (new_piece_offset, new_piece_size) = if !free_piece_offset.is_zero() {
+                // a large free piece may be bigger than requested: keep its real size.
                 self.0.seek_from_start(free_piece_offset)?;
-                free_piece_offset
+                let free_piece_size = self.0.read_piece_size()?;
+                self.0.seek_from_start(free_piece_offset)?;
+                (free_piece_offset, free_piece_size.max(new_piece_size))
             } else {
-                self.0.seek_to_end()?
+                (self.0.seek_to_end()?, new_piece_size)
             };
             piece.offset = new_piece_offset;
             piece.size = new_piece_size;
